@@ -59,6 +59,8 @@ func (v *Vue) evalInclude(ctx VueContext, node *html.Node, vars map[string]any, 
 	}
 
 	// Validate and process template tag
+	assignStableSeenAttrs("include:"+name, compDom)
+
 	processedDom, err := v.evalTemplate(ctx, compDom, ctx.stack.EnvMap(), depth+1)
 	if err != nil {
 		return nil, fmt.Errorf("error in %s (included from %s): %w", name, ctx.FormatTemplateChain(), err)
